@@ -231,7 +231,10 @@ impl Session {
     }
 
     pub fn fail(&mut self, class: &str, detail: String, case: String) {
-        if self.failures.len() < 200 {
+        // keep at most 25 failures PER CLASS (and 600 in all): a flood of one class - typically a
+        // known finding - must never push a failure of another class out of the report
+        let same = self.failures.iter().filter(|f| f.class == class).count();
+        if same < 25 && self.failures.len() < 600 {
             self.failures.push(Failure {
                 class: class.to_string(),
                 detail,
